@@ -84,6 +84,7 @@ class MethodWalker(object):
             self.params.add(func.args.kwarg.arg)
         self.events = []
         self.posts = []          # (NameRef, receiver is self?)
+        self.sites = []          # (NameRef, keyword names of the dict(...) payload | None when it is not a dict call)
         self.locals = {}         # name -> classification
         self.dicts = {}          # local name -> dict-building node
         self.closures = []       # nested functions that post on behalf of `self`
@@ -150,8 +151,10 @@ class MethodWalker(object):
         old = new = None
         if isinstance(data, ast.Name) and data.id in self.dicts:
             data = self.dicts[data.id]
+        keys = None
         if data is None or (isinstance(data, ast.Constant) and data.value is None):
             o = n = "none"
+            keys = []
         elif isinstance(data, ast.Call) and isinstance(data.func, ast.Name) and data.func.id == "dict" and not data.args:
             kws = {kw.arg: kw.value for kw in data.keywords}
             olds = [x for x in OLD_KEYS if x in kws]
@@ -163,12 +166,14 @@ class MethodWalker(object):
                 self.fail(call, "unrecognised old/new payload key %s" % unknown)
             o = self.src(kws[olds[0]], k) if olds else "none"
             n = self.src(kws[news[0]], k) if news else "none"
+            keys = [kw.arg for kw in data.keywords]
         elif isinstance(data, ast.Dict):
             self.fail(call, "payload written as a dict display")
         else:
             # the payload is an expression (e.g. a forwarded `notification.data`): it may carry old/new values
             o = n = self.src(data, k)
         self.posts.append(ref)
+        self.sites.append((ref, keys))
         self.events.append(("post", ref, o, n))
 
     def assign_local(self, target, cls_):
@@ -356,7 +361,7 @@ def branch_variants(func):
 
 
 def extract_tables(repo):
-    classes, skeletons = [], []
+    classes, skeletons, sites = [], [], []
     for fn in FILES:
         path = os.path.join(repo, "Lib", "defcon", "objects", fn + ".py")
         tree = ast.parse(open(path).read(), path)
@@ -407,6 +412,8 @@ def extract_tables(repo):
                 w.walk(func.body, 0)
                 for ref in w.posts:
                     posts.append((mname, ref))
+                for ref, keys in w.sites:
+                    sites.append((node.name, mname, ref, keys))
                 skeletons.append((node.name, mname, w.events))
                 todo = [(mname, c) for c in w.closures]
                 while todo:
@@ -416,6 +423,8 @@ def extract_tables(repo):
                     wc.walk(c.body, 0)
                     for ref in wc.posts:
                         posts.append((cname, ref))
+                    for ref, keys in wc.sites:
+                        sites.append((node.name, cname, ref, keys))
                     skeletons.append((node.name, cname, wc.events))
                     todo += [(cname, cc) for cc in wc.closures]
                 for suffix, body in branch_variants(func):
@@ -426,7 +435,7 @@ def extract_tables(repo):
         for name, f in module_funcs.items():
             if name not in claimed and has_notification_call(f):
                 raise ExtractError("%s.py: module-level function %s posts notifications for an unknown class" % (fn, name))
-    return classes, skeletons
+    return classes, skeletons, sites
 
 
 # ---------------------------------------------------------------------------------------------------
@@ -447,7 +456,7 @@ def lev(e):
     return "." + e[0]
 
 
-def render(classes, skeletons):
+def render(classes, skeletons, sites):
     out = ["/- GENERATED by harness/extract_notif.py from $DEFCON_REPO/Lib/defcon/objects on every run of ./check C08.",
            "   Do not edit: the obligations of Props/C08.lean are re-checked over exactly these tables. -/",
            "import DefconModel.NotifTables", "", "namespace DefconModel.Gen.NotifNames", "open DefconModel.Setters", "",
@@ -464,14 +473,22 @@ def render(classes, skeletons):
     for cls, m, evs in skeletons:
         rows.append("  { cls := %s, method := %s,\n    evs := [%s] }" % (lstr(cls), lstr(m), ", ".join(lev(e) for e in evs)))
     out.append(",\n".join(rows) + "]")
-    out += ["", "def tables : Tables := { classes := classes, skeletons := skeletons }", "",
+    out += ["", "/-- every `self.postNotification(...)`: the keyword names of the `dict(...)` it hands over as data, in source",
+            "order (`none`: the payload is not written as a dict call, e.g. a forwarded `notification.data`) -/",
+            "def sites : List PostSite := ["]
+    rows = []
+    for cls, m, ref, keys in sites:
+        ks = "none" if keys is None else "some [%s]" % ", ".join(lstr(k) for k in keys)
+        rows.append("  { cls := %s, method := %s, name := %s, keys := %s }" % (lstr(cls), lstr(m), lref(ref)[1:-1], ks))
+    out.append(",\n".join(rows) + "]")
+    out += ["", "def tables : Tables := { classes := classes, skeletons := skeletons, sites := sites }", "",
             "end DefconModel.Gen.NotifNames", ""]
     return "\n".join(out)
 
 
 def extract(repo, lean_dir):
-    classes, skeletons = extract_tables(repo)
-    text = render(classes, skeletons)
+    classes, skeletons, sites = extract_tables(repo)
+    text = render(classes, skeletons, sites)
     path = os.path.join(lean_dir, "DefconModel", "Gen", "NotifNames.lean")
     old = open(path).read() if os.path.exists(path) else None
     changed = []
